@@ -172,6 +172,9 @@ def cases(tier, seed):
     from rv.props import _c20_scenarios as S
     for pkg in SUBPACKAGES:
         yield {"k": "star", "pkg": pkg}
+    for pkg in SUBPACKAGES:
+        # the same with the optional dependency absent (lena.output falls back to a stub)
+        yield {"k": "star", "pkg": pkg, "hide": ["jinja2"]}
     for pkg in SUBPACKAGES + ["*"]:
         yield {"k": "audit", "pkg": pkg}
     names = public_names()
@@ -239,9 +242,13 @@ def run_case(r, obs):
 
 def case_star(r, obs):
     pkg = r["pkg"]
-    res = child({"mode": "star", "pkg": pkg})
+    hide = r.get("hide", [])
+    res = child({"mode": "star", "pkg": pkg, "hide": hide})
     merge_coverage(res, obs)
     st = res["star"]
+    if hide:
+        obs.count("star_imports_with_optional_dependency_absent")
+        pkg = "%s[without %s]" % (pkg, "+".join(hide))
     obs.nontrivial = True
     seen = set()
     report_raised(res, obs, seen, "from lena.%s import *" % pkg)
